@@ -316,6 +316,7 @@ class TextModel:
 
 
 MODELS_PER_NAME = 3
+UNKNOWNS_PER_NAME = 4
 DISAGREEMENTS = []
 
 
@@ -341,14 +342,29 @@ def discharge(obls, want_models=True, t_z3=10, t_cvc5=20, both=False, jobs=None)
             model_budget[o.name] = n + 1
         return n < MODELS_PER_NAME
 
+    # an obligation NAME on which the solvers have already given up several times (path instances of
+    # one clause on a changed tree) gets a short budget for its remaining instances: the verdict for
+    # the name is `unknown` either way, and a check must not run for hours on a changed tree
+    gave_up = {}
+
     def work(i):
         o, text = obls[i], texts[i]
         if o.expect == 'sat':
             # vacuity covers: cheap budget; an undecided cover is not a failure
             r = solve_text(text, False, 3, 3, False, workdir=d, sat_grace=False)
         else:
-            r = solve_text(text, (lambda: wants_model(o)) if want_models else False,
-                           t_z3, t_cvc5, both, workdir=d)
+            with lock:
+                tired = gave_up.get(o.name, 0) >= UNKNOWNS_PER_NAME
+            if tired:
+                r = {'verdict': 'unknown', 'backend': 'skipped', 'time': 0.0, 'model_text': None,
+                     'tried': [('skipped', 'the solvers gave up on %d earlier instances of this obligation'
+                                % UNKNOWNS_PER_NAME, 0.0)]}
+            else:
+                r = solve_text(text, (lambda: wants_model(o)) if want_models else False,
+                               t_z3, t_cvc5, both, workdir=d)
+            if r['verdict'] not in ('sat', 'unsat'):
+                with lock:
+                    gave_up[o.name] = gave_up.get(o.name, 0) + 1
         v = r['verdict']
         res = {'backend': r['backend'], 'time': r['time'], 'tried': r['tried'],
                'smt_bytes': len(text)}
